@@ -29,7 +29,7 @@ def main():
     only = sys.argv[1:]
     ms = [m for m in CAT if not only or m["id"] in only or m["property"] in only]
     bad = 0
-    with cf.ThreadPoolExecutor(max_workers=4) as ex:
+    with cf.ThreadPoolExecutor(max_workers=int(os.environ.get("VERIF_MUT_JOBS", "4"))) as ex:
         for (m, status, info) in ex.map(run_one, ms):
             print("%-8s %-4s %-40s %s" % (status, m["property"], m["id"], info.replace("\n", " ")[:200]))
             if status != "CAUGHT":
